@@ -934,6 +934,8 @@ var _ *packages.Package
 var _ *ssa.Function
 
 func runC16(c *Ctx, tier string) {
+	runBoundsUseSortEvaluator(c, "C16-K4")
+	runPrunerBuiltFromFilter(c, "C16-T2")
 	c.Rule("C16-T1", "pruner tables (rangePrunerPred, reverseComparator, literalComparison, compare, and/or composition of buildRangePruner) are extracted from the AST and evaluated exhaustively over a 5-point total order + NULL-as-max: pruner(min,max) true implies no key in [min,max] satisfies the predicate")
 	c.Rule("C16-S1", "every dag.*.KeyPruner is maybeNewRangePruner(<the filter pushed into this scan>, sortKeysOfSource(<this source>)), or a copy of the lister's; the same predicate is stored as the scan's Filter/Where")
 	c.Rule("C16-D1", "no store to dag.Deleter.KeyPruner (the deleter must see every seek range of a touched object)")
